@@ -809,10 +809,13 @@ spiftool_version_compare(spif_charptr_t v1, spif_charptr_t v2)
         }
     }
 
-    /* We've reached the end of one of the strings. */
+    /* We've reached the end of one of the strings.  What the other one goes on with ranks it
+       below the bare version only if it is one of the pre-release words -- the whole word, as in
+       the loop above, not a longer word that merely begins like one ("prefix", "alphabet"). */
+#define TAIL_IS_WORD(s, w)  (!BEG_STRCASECMP((char *) (s), w) && !isalpha((s)[CONST_STRLEN(w)]))
     if (*v1) {
-        if (!BEG_STRCASECMP((char *) v1, "snap") || !BEG_STRCASECMP((char *) v1, "pre")
-            || !BEG_STRCASECMP((char *) v1, "alpha") || !BEG_STRCASECMP((char *) v1, "beta")) {
+        if (TAIL_IS_WORD(v1, "snap") || TAIL_IS_WORD(v1, "pre")
+            || TAIL_IS_WORD(v1, "alpha") || TAIL_IS_WORD(v1, "beta")) {
             D_CONF(("     -> <\n"));
             return SPIF_CMP_LESS;
         } else {
@@ -820,8 +823,8 @@ spiftool_version_compare(spif_charptr_t v1, spif_charptr_t v2)
             return SPIF_CMP_GREATER;
         }
     } else if (*v2) {
-        if (!BEG_STRCASECMP((char *) v2, "snap") || !BEG_STRCASECMP((char *) v2, "pre")
-            || !BEG_STRCASECMP((char *) v2, "alpha") || !BEG_STRCASECMP((char *) v2, "beta")) {
+        if (TAIL_IS_WORD(v2, "snap") || TAIL_IS_WORD(v2, "pre")
+            || TAIL_IS_WORD(v2, "alpha") || TAIL_IS_WORD(v2, "beta")) {
             D_CONF(("     -> >\n"));
             return SPIF_CMP_GREATER;
         } else {
@@ -829,6 +832,7 @@ spiftool_version_compare(spif_charptr_t v1, spif_charptr_t v2)
             return SPIF_CMP_LESS;
         }
     }
+#undef TAIL_IS_WORD
     D_CONF(("     -> ==\n"));
     return SPIF_CMP_EQUAL;
 }
